@@ -52,6 +52,7 @@ type drvQuery struct {
 	match   func(r drvRow) bool
 	groupBy []string
 	wantErr bool
+	args    []string // bound to $1, $2, ... (nil: the text has no placeholders)
 }
 
 type drvGroup struct {
